@@ -194,7 +194,7 @@ def _resort(chk, dec, svd):
                 for nm in names:
                     defs = ff.rd.reaching(nm, ff.node_of(st))
                     for d in defs:
-                        if d.kind == "assign" and isinstance(d.value, ast.Subscript) and "argsort" in norm(d.value):
+                        if d.kind == "assign" and isinstance(d.value, (ast.Subscript, ast.Call)) and "argsort" in norm(d.value):
                             hits.append((st, d))
         targets = {norm(st.targets[0]) for st, _ in hits}
         chk.check({"U", "s", "VT"} <= targets, "SIB.resort", fn, hits[0][0] if hits else fn.node,
@@ -202,10 +202,11 @@ def _resort(chk, dec, svd):
                   construct="svds branch: U, s, VT re-indexed by argsort(s)[::-1]")
         for st, d in hits[:1]:
             v = d.value
-            desc = isinstance(v.slice, ast.Slice) and v.slice.step is not None and norm(v.slice.step) == "-1"
+            desc = isinstance(v, ast.Subscript) and isinstance(v.slice, ast.Slice) and v.slice.step is not None and norm(v.slice.step) == "-1"
             arg_ok = False
-            if isinstance(v.value, ast.Call) and v.value.args:
-                ps = ff.paths(v.value.args[0], spine_only=True)
+            callv = v.value if isinstance(v, ast.Subscript) else v
+            if isinstance(callv, ast.Call) and callv.args:
+                ps = ff.paths(callv.args[0], spine_only=True)
                 arg_ok = any(p.has_op("unpack", "1") for p in ps)
             chk.check(desc and arg_ok, "SIB.resort.key", fn, d.stmt,
                       why="the sort index must be argsort of the singular values, reversed (descending)")
